@@ -11,6 +11,7 @@ import (
 	"encoding/json"
 	"fmt"
 	"os"
+	"sort"
 	"strconv"
 	"strings"
 	"sync"
@@ -37,10 +38,10 @@ type jDesc struct {
 // one call on one peer
 type jOp struct {
 	P    int    `json:"p"`
-	Op   string `json:"op"` // add stop dc offer answer sld srd srdext srdmirror srdpeer
+	Op   string `json:"op"` // add addtrack rmtrack stop dc offer answer sld srd srdext srdmirror srdpeer
 	Kind string `json:"k,omitempty"`
 	Dir  string `json:"d,omitempty"`
-	Ty   string `json:"ty,omitempty"` // offer | answer
+	Ty   string `json:"ty,omitempty"` // offer | pranswer | answer
 	Idx  int    `json:"i,omitempty"`
 	Desc *jDesc `json:"desc,omitempty"`
 	// srdext: a remote offer = what the remote last sent or answered (its view
@@ -71,7 +72,7 @@ func jRender(d *jDesc, ty string) string {
 	// section the BUNDLE group names first, which hostile groups may not contain
 	b.WriteString("a=ice-ufrag:abcd\r\na=ice-pwd:abcdefghijklmnopqrstuvwx\r\n")
 	setup := "actpass"
-	if ty == "answer" {
+	if ty != "offer" {
 		setup = "active"
 	}
 	for _, s := range d.Secs {
@@ -223,6 +224,56 @@ func jProjectLocal(text string) (*lDesc, error) {
 	return d, nil
 }
 
+// jToRemote: what the other peer reads in a description pion generated
+// (coq: Model/JsepMidPair.v to_remote, used by the two-peer theorem of C09)
+func jToRemote(l *lDesc) *jDesc {
+	d := &jDesc{}
+	for _, x := range l.Secs {
+		s := jSec{Kind: x.Kind, Port0: x.Port0, Codec: x.Creds}
+		if x.HasMid {
+			s.Mid = x.Mid
+		}
+		if len(x.Dirs) > 0 {
+			s.Dir = x.Dirs[0]
+		}
+		d.Secs = append(d.Secs, s)
+	}
+	if len(l.Bundle) > 0 {
+		v := "BUNDLE " + strings.Join(l.Bundle, " ")
+		d.Group = &v
+	}
+	return d
+}
+
+func jDescDiff(a, b *jDesc) string {
+	if len(a.Secs) != len(b.Secs) {
+		return fmt.Sprintf("%d sections vs %d", len(a.Secs), len(b.Secs))
+	}
+	for i := range a.Secs {
+		if a.Secs[i] != b.Secs[i] {
+			return fmt.Sprintf("section %d: %+v vs %+v", i, a.Secs[i], b.Secs[i])
+		}
+	}
+	switch {
+	case (a.Group == nil) != (b.Group == nil):
+		return "group present on one side only"
+	case a.Group != nil && *a.Group != *b.Group:
+		return fmt.Sprintf("group %q vs %q", *a.Group, *b.Group)
+	}
+	return ""
+}
+
+// a delivered description that is not to_remote of what was generated: the two-peer
+// model (not pion) would be wrong about what the receiving peer reads
+func (l *jLog) projFailure() (string, string) {
+	for _, e := range l.inOrder() {
+		if e.ProjDiff != "" {
+			return "delivered-description-differs-from-to_remote", fmt.Sprintf("peer %d call %d: %s", e.Op.P, e.Seq, e.ProjDiff)
+		}
+	}
+	return "", ""
+}
+
 func jKindCh(k string) string {
 	switch k {
 	case "audio":
@@ -245,6 +296,8 @@ func jDirAb(d string) string {
 		return "ro"
 	case "inactive":
 		return "in"
+	case "unknown":
+		return "un"
 	}
 	return "??"
 }
@@ -283,9 +336,19 @@ func (d *lDesc) S() string {
 
 // ---------- running a history on real PeerConnections ----------
 
-type jTr struct{ Mid, Kind, Dir string }
+// Cur / RCur: currentDirection / currentRemoteDirection ("unknown" when unset);
+// Snd: Sender() != nil
+type jTr struct {
+	Mid, Kind, Dir, Cur, RCur string
+	Snd                       bool
+}
+
+func (t jTr) S() string {
+	return t.Mid + "," + jKindCh(t.Kind) + "," + jDirAb(t.Dir) + "," + jDirAb(t.Cur) + "," + jDirAb(t.RCur) + "," + jFlag(t.Snd, "s")
+}
 
 type jEntry struct {
+	Seq     int    // position of the call in the case (global order over both peers)
 	Op      jOp    // resolved: srdpeer carries the projected description
 	InModel bool   // false: skipped (srdpeer with nothing to deliver)
 	Status  string // "ok" or an error class
@@ -299,12 +362,28 @@ type jEntry struct {
 	RemoteAppMids []string
 	RemoteAllMids []string
 	RemoteSecs    []jSec   // all sections of that remote description
+	RemoteGroup   *string  // its first session-level a=group value (nil = none)
 	PendingMids   []string // mids of the pending remote description, if any
 	Err           string
+	// srdpeer: how the delivered description (read as a remote description) differs from
+	// to_remote (coq: Model/JsepMidPair.v) of the same text read as a generated description
+	ProjDiff string
 }
 
 type jLog struct {
 	Peers [][]jEntry
+}
+
+// the calls of all peers in the order they were made
+func (l *jLog) inOrder() []*jEntry {
+	var out []*jEntry
+	for pi := range l.Peers {
+		for k := range l.Peers[pi] {
+			out = append(out, &l.Peers[pi][k])
+		}
+	}
+	sort.Slice(out, func(i, j int) bool { return out[i].Seq < out[j].Seq })
+	return out
 }
 
 func jDirOf(s string) webrtc.RTPTransceiverDirection {
@@ -314,18 +393,40 @@ func jDirOf(s string) webrtc.RTPTransceiverDirection {
 func jSnapshot(pc *webrtc.PeerConnection) []jTr {
 	var out []jTr
 	for _, t := range pc.GetTransceivers() {
-		out = append(out, jTr{t.Mid(), t.Kind().String(), t.Direction().String()})
+		cur, rcur := t.VerifJsepCurrentDirections()
+		out = append(out, jTr{t.Mid(), t.Kind().String(), t.Direction().String(), jDirName(cur), jDirName(rcur), t.Sender() != nil})
 	}
 	return out
 }
 
-func jRemoteMids(pc *webrtc.PeerConnection, forOffer bool) (app, all []string, secs []jSec) {
+func jDirName(d webrtc.RTPTransceiverDirection) string {
+	if d == webrtc.RTPTransceiverDirectionUnknown {
+		return "unknown"
+	}
+	return d.String()
+}
+
+// the track AddTrack is given: the codec AddTransceiverFromKind would pick from
+// the default media engine
+func jNewTrack(kind string) webrtc.TrackLocal {
+	c := webrtc.RTPCodecCapability{MimeType: webrtc.MimeTypeOpus, ClockRate: 48000, Channels: 2, SDPFmtpLine: "minptime=10;useinbandfec=1"}
+	if kind == "video" {
+		c = webrtc.RTPCodecCapability{MimeType: webrtc.MimeTypeVP8, ClockRate: 90000}
+	}
+	t, err := webrtc.NewTrackLocalStaticSample(c, "track", "stream")
+	if err != nil {
+		panic(err)
+	}
+	return t
+}
+
+func jRemoteMids(pc *webrtc.PeerConnection, forOffer bool) (app, all []string, secs []jSec, group *string) {
 	cur := pc.CurrentRemoteDescription()
 	pend := pc.PendingRemoteDescription()
 	var rd *webrtc.SessionDescription
 	if forOffer {
 		if cur == nil {
-			return nil, nil, nil
+			return nil, nil, nil, nil
 		}
 		rd = cur
 		if pend != nil {
@@ -338,11 +439,11 @@ func jRemoteMids(pc *webrtc.PeerConnection, forOffer bool) (app, all []string, s
 		}
 	}
 	if rd == nil {
-		return nil, nil, nil
+		return nil, nil, nil, nil
 	}
 	d, err := jProjectRemote(rd.SDP)
 	if err != nil {
-		return nil, nil, nil
+		return nil, nil, nil, nil
 	}
 	for _, s := range d.Secs {
 		all = append(all, s.Mid)
@@ -350,7 +451,7 @@ func jRemoteMids(pc *webrtc.PeerConnection, forOffer bool) (app, all []string, s
 			app = append(app, s.Mid)
 		}
 	}
-	return app, all, d.Secs
+	return app, all, d.Secs, d.Group
 }
 
 func jsepRun(c jCase) *jLog {
@@ -387,17 +488,26 @@ func jsepRun(c jCase) *jLog {
 	// the offer (text) each peer's last created answer responds to: an answer is
 	// delivered only to answer the offer it was created for
 	answerBasis := make([]string, n)
-	for _, op := range c.Ops {
+	for seq, op := range c.Ops {
 		if op.P < 0 || op.P >= n {
 			continue
 		}
 		pc := pcs[op.P]
-		e := jEntry{Op: op, InModel: true, Before: jSnapshot(pc)}
+		e := jEntry{Seq: seq, Op: op, InModel: true, Before: jSnapshot(pc)}
 		var err error
 		switch op.Op {
 		case "add":
 			kind := webrtc.NewRTPCodecType(op.Kind)
 			_, err = pc.AddTransceiverFromKind(kind, webrtc.RTPTransceiverInit{Direction: jDirOf(op.Dir)})
+		case "addtrack":
+			_, err = pc.AddTrack(jNewTrack(op.Kind))
+		case "rmtrack":
+			ts := pc.GetTransceivers()
+			if op.Idx < 0 || op.Idx >= len(ts) || ts[op.Idx].Sender() == nil {
+				e.Status = "no-such-sender"
+			} else {
+				err = pc.RemoveTrack(ts[op.Idx].Sender())
+			}
 		case "stop":
 			ts := pc.GetTransceivers()
 			if op.Idx < 0 || op.Idx >= len(ts) {
@@ -408,7 +518,7 @@ func jsepRun(c jCase) *jLog {
 		case "dc":
 			_, err = pc.CreateDataChannel("d", nil)
 		case "offer", "answer":
-			e.RemoteAppMids, e.RemoteAllMids, e.RemoteSecs = jRemoteMids(pc, op.Op == "offer")
+			e.RemoteAppMids, e.RemoteAllMids, e.RemoteSecs, e.RemoteGroup = jRemoteMids(pc, op.Op == "offer")
 			if pend := pc.PendingRemoteDescription(); pend != nil {
 				if pd, perr := jProjectRemote(pend.SDP); perr == nil {
 					for _, x := range pd.Secs {
@@ -470,10 +580,14 @@ func jsepRun(c jCase) *jLog {
 		case "srdpeer":
 			other := 1 - op.P
 			text := ""
-			if other >= 0 && other < n {
-				text = lastCreated[other][op.Ty]
+			key := op.Ty
+			if key == "pranswer" {
+				key = "answer" // a provisional answer is the answerer's last created answer, sent as pranswer
 			}
-			if text != "" && op.Ty == "answer" && answerBasis[other] != lastCreated[op.P]["offer"] {
+			if other >= 0 && other < n {
+				text = lastCreated[other][key]
+			}
+			if text != "" && key == "answer" && answerBasis[other] != lastCreated[op.P]["offer"] {
 				text = "" // a stale answer (to an older offer): a real remote would not send it
 			}
 			if text == "" {
@@ -491,6 +605,9 @@ func jsepRun(c jCase) *jLog {
 				break
 			}
 			e.Op.Desc = d
+			if ld, lerr := jProjectLocal(text); lerr == nil {
+				e.ProjDiff = jDescDiff(jToRemote(ld), d)
+			}
 			err = pc.SetRemoteDescription(webrtc.SessionDescription{Type: webrtc.NewSDPType(op.Ty), SDP: text})
 			drain(pc)
 		default:
@@ -553,7 +670,7 @@ func (l *jLog) V() V {
 			}
 			trs := []string{}
 			for _, t := range e.Trs {
-				trs = append(trs, t.Mid+","+jKindCh(t.Kind)+","+jDirAb(t.Dir))
+				trs = append(trs, t.S())
 			}
 			cur := strings.Join(trs, ";")
 			body := d + "|" + cur
@@ -602,8 +719,11 @@ func jCoqDir(d string) string {
 }
 
 func jCoqTy(t string) string {
-	if t == "offer" {
+	switch t {
+	case "offer":
 		return "TOffer"
+	case "pranswer":
+		return "TPranswer"
 	}
 	return "TAnswer"
 }
@@ -659,6 +779,19 @@ func jsepCoq(l *jLog) string {
 					return ""
 				}
 				ops = append(ops, "AddTransceiver "+k+" "+jCoqDir(op.Dir))
+			case "addtrack":
+				k := "MAudio"
+				if op.Kind == "video" {
+					k = "MVideo"
+				} else if op.Kind != "audio" {
+					return ""
+				}
+				ops = append(ops, "AddTrack "+k)
+			case "rmtrack":
+				if op.Idx < 0 {
+					return ""
+				}
+				ops = append(ops, "RemoveTrack "+strconv.Itoa(op.Idx))
 			case "stop":
 				if op.Idx < 0 {
 					return ""
@@ -850,11 +983,29 @@ func jMirror(offer string, seed uint64, hostile int) *jDesc {
 func jGenAdds(r *Rand, p int, max int) []jOp {
 	var ops []jOp
 	for k := r.Intn(max + 1); k > 0; k-- {
+		kind := Pick(r, []string{"audio", "video"})
+		if r.Intn(100) < 35 {
+			// AddTrack: reuses a transceiver that may send this kind, else creates one
+			ops = append(ops, jOp{P: p, Op: "addtrack", Kind: kind})
+			continue
+		}
 		d := Pick(r, []string{"sendrecv", "sendrecv", "sendonly", "recvonly", "recvonly"})
 		if r.Intn(100) < 3 {
 			d = "inactive"
 		}
-		ops = append(ops, jOp{P: p, Op: "add", Kind: Pick(r, []string{"audio", "video"}), Dir: d})
+		ops = append(ops, jOp{P: p, Op: "add", Kind: kind, Dir: d})
+	}
+	return ops
+}
+
+// removals: Stop of a transceiver, RemoveTrack of a transceiver's sender
+func jGenRemovals(r *Rand, p int, stopPct, rmPct int) []jOp {
+	var ops []jOp
+	if r.Intn(100) < stopPct {
+		ops = append(ops, jOp{P: p, Op: "stop", Idx: r.Intn(4)})
+	}
+	if r.Intn(100) < rmPct {
+		ops = append(ops, jOp{P: p, Op: "rmtrack", Idx: r.Intn(4)})
 	}
 	return ops
 }
@@ -880,6 +1031,7 @@ func jGenSynth(r *Rand, hostile int) jCase {
 			}
 			ops = append(ops, jOp{Op: "srdext", Ty: "offer", New: add, Seed: r.U64(), H: hostile})
 			ops = append(ops, jGenAdds(r, 0, 1)...)
+			ops = append(ops, jGenRemovals(r, 0, 0, 6)...)
 			if r.Intn(100) < 10 {
 				ops = append(ops, jOp{Op: "dc"})
 			}
@@ -888,6 +1040,14 @@ func jGenSynth(r *Rand, hostile int) jCase {
 			}
 			if r.Intn(100) < 100-hostile/2 {
 				ops = append(ops, jOp{Op: "answer"})
+				if r.Intn(100) < 14 {
+					// a provisional answer first; the final one is re-created in most cases
+					ops = append(ops, jOp{Op: "sld", Ty: "pranswer"})
+					ops = append(ops, jGenAdds(r, 0, 1)...)
+					if r.Intn(100) < 75 {
+						ops = append(ops, jOp{Op: "answer"})
+					}
+				}
 				if r.Intn(100) < 100-hostile/2 {
 					ops = append(ops, jOp{Op: "sld", Ty: "answer"})
 				}
@@ -897,9 +1057,7 @@ func jGenSynth(r *Rand, hostile int) jCase {
 			if r.Intn(100) < 25 {
 				ops = append(ops, jOp{Op: "dc"})
 			}
-			if r.Intn(100) < 8 {
-				ops = append(ops, jOp{Op: "stop", Idx: r.Intn(4)})
-			}
+			ops = append(ops, jGenRemovals(r, 0, 8, 12)...)
 			ops = append(ops, jOp{Op: "offer"})
 			if r.Intn(100) < 12+hostile/2 {
 				continue // the offer is abandoned (glare: the application drops it)
@@ -909,11 +1067,19 @@ func jGenSynth(r *Rand, hostile int) jCase {
 				ops = append(ops, jOp{Op: "offer"})
 			}
 			ops = append(ops, jOp{Op: "sld", Ty: "offer"})
+			if r.Intn(100) < 14 {
+				ops = append(ops, jOp{Op: "srdmirror", Ty: "pranswer", Seed: r.U64(), H: hostile})
+				ops = append(ops, jGenAdds(r, 0, 1)...)
+				if r.Intn(100) < 5+hostile/2 {
+					ops = append(ops, jOp{Op: "offer"})
+				}
+			}
 			ops = append(ops, jOp{Op: "srdmirror", Ty: "answer", Seed: r.U64(), H: hostile})
 		}
 	}
 	if r.Intn(100) < 60 {
 		ops = append(ops, jGenAdds(r, 0, 1)...)
+		ops = append(ops, jGenRemovals(r, 0, 0, 8)...)
 		ops = append(ops, jOp{Op: "offer"})
 	}
 	return jCase{Peers: 1, Ops: ops}
@@ -934,15 +1100,22 @@ func jGenPair(r *Rand, chaos int) jCase {
 		if r.Intn(100) < 25 {
 			ops = append(ops, jOp{P: r.Intn(2), Op: "dc"})
 		}
-		if r.Intn(100) < 6 {
-			ops = append(ops, jOp{P: r.Intn(2), Op: "stop", Idx: r.Intn(3)})
-		}
+		ops = append(ops, jGenRemovals(r, r.Intn(2), 6, 10)...)
 		if r.Intn(100) < chaos {
 			ops = append(ops, jOp{P: q, Op: "offer"}) // created, never applied
 		}
 		round := []jOp{
 			{P: p, Op: "offer"}, {P: p, Op: "sld", Ty: "offer"}, {P: q, Op: "srdpeer", Ty: "offer"},
 			{P: q, Op: "answer"}, {P: q, Op: "sld", Ty: "answer"}, {P: p, Op: "srdpeer", Ty: "answer"},
+		}
+		if r.Intn(100) < 14 {
+			// the answerer sends a provisional answer first
+			mid := []jOp{{P: q, Op: "sld", Ty: "pranswer"}, {P: p, Op: "srdpeer", Ty: "pranswer"}}
+			if r.Intn(100) < 75 {
+				mid = append(mid, jGenAdds(r, q, 1)...)
+				mid = append(mid, jOp{P: q, Op: "answer"})
+			}
+			round = append(round[:4], append(mid, round[4:]...)...)
 		}
 		if r.Intn(100) < 30 {
 			extra := jGenAdds(r, q, 1)
@@ -957,9 +1130,70 @@ func jGenPair(r *Rand, chaos int) jCase {
 	if r.Intn(100) < 50 {
 		p := r.Intn(2)
 		ops = append(ops, jGenAdds(r, p, 1)...)
+		ops = append(ops, jGenRemovals(r, p, 0, 8)...)
 		ops = append(ops, jOp{P: p, Op: "offer"})
 	}
 	return jCase{Peers: 2, Ops: ops}
+}
+
+// corpus shared by C06, C07 and C09: the operations added to the model later
+// (AddTrack with and without reuse, RemoveTrack, provisional answers)
+func jCorpusOps() []jCase {
+	sec := func(k, m, d string) jSec { return jSec{Kind: k, Mid: m, Dir: d, Codec: true} }
+	offer := func(secs ...jSec) *jDesc {
+		mids := []string{}
+		for _, x := range secs {
+			mids = append(mids, x.Mid)
+		}
+		return &jDesc{Secs: secs, Group: jStr("BUNDLE " + strings.Join(mids, " "))}
+	}
+	return []jCase{
+		// AddTrack reuses the recvonly transceiver the remote offer created (after the answer is
+		// applied: currentDirection recvonly), the second AddTrack has to create one
+		{Peers: 1, Ops: []jOp{
+			{Op: "srd", Ty: "offer", Desc: offer(sec("audio", "a", "sendrecv"), sec("video", "v", "sendonly"))},
+			{Op: "answer"}, {Op: "sld", Ty: "answer"},
+			{Op: "addtrack", Kind: "audio"}, {Op: "addtrack", Kind: "video"}, {Op: "addtrack", Kind: "audio"}, {Op: "offer"}}},
+		// AddTrack before the answer is applied; remote recvonly section: sendonly transceiver without sender
+		{Peers: 1, Ops: []jOp{
+			{Op: "srd", Ty: "offer", Desc: offer(sec("audio", "0", "recvonly"), sec("video", "1", "inactive"))},
+			{Op: "addtrack", Kind: "audio"}, {Op: "addtrack", Kind: "video"},
+			{Op: "answer"}, {Op: "sld", Ty: "answer"}, {Op: "addtrack", Kind: "video"}, {Op: "offer"}}},
+		// RemoveTrack: sendrecv -> recvonly, sendonly -> inactive, then AddTrack reuses them; removing twice
+		{Peers: 1, Ops: []jOp{
+			{Op: "addtrack", Kind: "audio"}, {Op: "add", Kind: "video", Dir: "sendonly"}, {Op: "add", Kind: "video", Dir: "recvonly"},
+			{Op: "offer"}, {Op: "sld", Ty: "offer"}, {Op: "srdmirror", Ty: "answer"},
+			{Op: "rmtrack", Idx: 0}, {Op: "rmtrack", Idx: 1}, {Op: "rmtrack", Idx: 2}, {Op: "rmtrack", Idx: 0}, {Op: "offer"},
+			{Op: "addtrack", Kind: "video"}, {Op: "addtrack", Kind: "audio"}, {Op: "offer"},
+			{Op: "sld", Ty: "offer"}, {Op: "srdmirror", Ty: "answer"}, {Op: "offer"}}},
+		// RemoveTrack on a stopped transceiver: the sender goes, the call reports an error
+		{Peers: 1, Ops: []jOp{
+			{Op: "add", Kind: "audio", Dir: "sendrecv"}, {Op: "stop", Idx: 0}, {Op: "rmtrack", Idx: 0}, {Op: "addtrack", Kind: "audio"}, {Op: "offer"}}},
+		// local provisional answer, a transceiver added meanwhile, final answer re-created
+		{Peers: 1, Ops: []jOp{
+			{Op: "add", Kind: "video", Dir: "sendrecv"},
+			{Op: "srd", Ty: "offer", Desc: offer(sec("audio", "0", "sendrecv"), sec("video", "1", "sendrecv"), sec("application", "2", ""))},
+			{Op: "answer"}, {Op: "sld", Ty: "pranswer"}, {Op: "sld", Ty: "pranswer"}, {Op: "addtrack", Kind: "audio"}, {Op: "offer"},
+			{Op: "answer"}, {Op: "sld", Ty: "answer"}, {Op: "offer"}}},
+		// remote provisional answer that adds a section: the matching loop runs on it
+		// (a new transceiver appears); CreateOffer in have-remote-pranswer; final answer
+		{Peers: 1, Ops: []jOp{
+			{Op: "add", Kind: "audio", Dir: "sendrecv"}, {Op: "offer"}, {Op: "sld", Ty: "offer"},
+			{Op: "srd", Ty: "pranswer", Desc: offer(sec("audio", "0", "sendrecv"), sec("video", "5", "sendonly"))},
+			{Op: "add", Kind: "video", Dir: "sendonly"}, {Op: "offer"},
+			{Op: "srd", Ty: "answer", Desc: offer(sec("audio", "0", "recvonly"), sec("video", "5", "sendonly"))},
+			{Op: "addtrack", Kind: "audio"}, {Op: "offer"}}},
+		// two pion peers, tracks on both sides, provisional answer delivered, then the final one
+		{Peers: 2, Ops: []jOp{
+			{P: 0, Op: "addtrack", Kind: "audio"}, {P: 0, Op: "add", Kind: "video", Dir: "recvonly"}, {P: 1, Op: "addtrack", Kind: "video"},
+			{P: 0, Op: "offer"}, {P: 0, Op: "sld", Ty: "offer"}, {P: 1, Op: "srdpeer", Ty: "offer"},
+			{P: 1, Op: "answer"}, {P: 1, Op: "sld", Ty: "pranswer"}, {P: 0, Op: "srdpeer", Ty: "pranswer"},
+			{P: 1, Op: "addtrack", Kind: "audio"}, {P: 1, Op: "answer"}, {P: 1, Op: "sld", Ty: "answer"}, {P: 0, Op: "srdpeer", Ty: "answer"},
+			{P: 0, Op: "rmtrack", Idx: 0}, {P: 1, Op: "addtrack", Kind: "audio"},
+			{P: 1, Op: "offer"}, {P: 1, Op: "sld", Ty: "offer"}, {P: 0, Op: "srdpeer", Ty: "offer"},
+			{P: 0, Op: "answer"}, {P: 0, Op: "sld", Ty: "answer"}, {P: 1, Op: "srdpeer", Ty: "answer"},
+			{P: 0, Op: "addtrack", Kind: "audio"}, {P: 0, Op: "offer"}}},
+	}
 }
 
 func jShrink(c jCase) []jCase {
